@@ -37,6 +37,7 @@ type St struct {
 	evCount int
 	quiet   bool   // do not emit trace lines (twin run)
 	comment bool   // emit trace lines as comments (not replayed by the model)
+	txActive bool  // a transaction holds the database lock
 	faultOp string // op of the event at which the injected fault fired
 	datWrites int  // complete data-file writes observed since the fault was armed
 }
@@ -61,6 +62,7 @@ func (s *St) reset() {
 	s.dir = filepath.Join(s.work, fmt.Sprintf("db%d", s.n))
 	os.RemoveAll(s.dir)
 	s.dead = false
+	s.txActive = false
 	s.tx = nil
 	s.db = nil
 	s.keys = map[string]bool{}
@@ -285,6 +287,15 @@ func (s *St) exec(call string) (rcall string, res string) {
 			return call, "err"
 		}
 		return call, errOr(s.db.Merge(), "ok")
+	case "backup":
+		if s.db == nil {
+			return call, "err"
+		}
+		bd := s.dir + "_bak"
+		os.RemoveAll(bd)
+		err := s.db.Backup(bd)
+		os.RemoveAll(bd)
+		return call, errOr(err, "ok")
 	case "begin":
 		if s.db == nil {
 			return call, "err"
@@ -294,12 +305,17 @@ func (s *St) exec(call string) (rcall string, res string) {
 			return "begin " + a[0] + " 0", "err"
 		}
 		s.tx = tx
+		s.txActive = true
 		return "begin " + a[0] + " " + strconv.FormatUint(tx.VerifID(), 10), "ok"
 	case "commit":
 		if s.tx == nil {
 			return call, "err"
 		}
-		return call, errOr(s.tx.Commit(), "ok")
+		err := s.tx.Commit()
+		if err == nil {
+			s.txActive = false
+		}
+		return call, errOr(err, "ok")
 	case "commitfault": // commitfault <event index> <partial bytes|-1>: Commit with an injected I/O error
 		if s.tx == nil {
 			return "commit", "err"
@@ -308,6 +324,9 @@ func (s *St) exec(call string) (rcall string, res string) {
 		err := s.tx.Commit()
 		fired := s.faultOp != ""
 		s.faultAt = 0
+		if err == nil {
+			s.txActive = false
+		}
 		if !fired {
 			return "commit", errOr(err, "ok")
 		}
@@ -316,7 +335,11 @@ func (s *St) exec(call string) (rcall string, res string) {
 		if s.tx == nil {
 			return call, "err"
 		}
-		return call, errOr(s.tx.Rollback(), "ok")
+		err := s.tx.Rollback()
+		if err == nil {
+			s.txActive = false
+		}
+		return call, errOr(err, "ok")
 	}
 	tx := s.tx
 	if tx == nil {
